@@ -161,11 +161,11 @@ type c19Backend struct {
 	log     []string
 }
 
-func (b *c19Backend) Name() string                                     { return "sim" }
-func (b *c19Backend) Lang() string                                     { return "sim" }
-func (b *c19Backend) Options() []plugin.Option                         { return nil }
-func (b *c19Backend) BuiltinPlugins() []*plugin.Desc                   { return nil }
-func (b *c19Backend) GetPlugin(desc *plugin.Desc) plugin.Plugin        { return nil }
+func (b *c19Backend) Name() string                              { return "sim" }
+func (b *c19Backend) Lang() string                              { return "sim" }
+func (b *c19Backend) Options() []plugin.Option                  { return nil }
+func (b *c19Backend) BuiltinPlugins() []*plugin.Desc            { return nil }
+func (b *c19Backend) GetPlugin(desc *plugin.Desc) plugin.Plugin { return nil }
 func (b *c19Backend) Generate(req *plugin.Request, log backend.LogFunc) *plugin.Response {
 	return plugin.NewResponse()
 }
